@@ -39,12 +39,15 @@ Print Assumptions c12_total.
    history (m_out / m_dout = the calls the mock underlying controller has received and not yet
    answered); g_conc, the largest number of calls outstanding at once as counted by the mock at every
    call it receives (that call included), never exceeds 1; the in-flight flag is set exactly while a
-   request is outstanding (until the destructor sets it to block all sending); and the "response but the queue was empty" (OLA_FATAL) and
+   request is outstanding (until the destructor sets it to block all sending); while a discovery run
+   is outstanding the set of running discovery entries (m_discovery_callbacks, NULL pointers
+   included) is non-empty, so it blocks everything else even if every caller passed a NULL callback; and the "response but the queue was empty" (OLA_FATAL) and
    front()-of-empty-queue branches are never taken. *)
 Theorem c12_one_outstanding : forall max discov ms ds s ag,
   reachable max discov ms ds s ag ->
   len (m_out s) + len (m_dout s) <= 1 /\ g_conc s <= 1 /\ g_fatal s = false /\
-  (h_destroying s = false -> (s_pending s = true <-> m_out s <> [])).
+  (h_destroying s = false ->
+   (s_pending s = true <-> m_out s <> []) /\ (m_dout s <> [] -> s_rdisc s <> [])).
 Proof. exact reach_outstanding. Qed.
 Print Assumptions c12_one_outstanding.
 
@@ -129,7 +132,9 @@ Proof.
 Qed.
 Print Assumptions c12_overflow.
 
-(* Discovery: at every instant of every history, the discovery requests made so far (numbered
+(* Discovery (requests with a NULL callback included: such a request counts as satisfied, and is
+   logged in g_ddone, when the completion of the run that took it passes its entry): at every instant
+   of every history, the discovery requests made so far (numbered
    0 .. h_ndid-1 in request order) are, in order, exactly the requests taken by the runs started so
    far (run by run) followed by those still waiting - so every request is taken by exactly one run and
    a run takes all requests waiting when it starts (in particular all those queued while the previous
@@ -159,7 +164,8 @@ Print Assumptions c12_paused.
 
 (* Non-vacuity: a history with a re-entrant submission, an ACK_OVERFLOW chain whose first part is
    answered synchronously inside a completion callback, pause/resume around a request in flight,
-   discovery, a queue-full rejection and destruction with requests queued.  Requests 0,1,2 are answered
+   a full discovery with a callback and an incremental one with a NULL callback coalesced into one full
+   run, a queue-full rejection and destruction with requests queued.  Requests 0,1,2 are answered
    in order (1 with the concatenated, tagged overflow data), 5 is rejected, 3 and 4 are failed by the
    destructor, whose run of 3's callback submits 6 (and calls Resume), whose callback submits 7 -
    both failed by the destructor too; one call outstanding at most, none sent while paused. *)
@@ -168,15 +174,15 @@ Example c12_example :
   let ovf := mkReply 0 (Some (mkResp 3 1 33 0 [5])) 1 in
   match run_history 2 true [Later; Sync ovf; Later; Later] [false]
           [Submit [Submit []]; Pause; Resume; Deliver ack; Deliver ack; Submit []; Submit [];
-           Disc true []; Deliver ack; DeliverDisc; Submit [Submit [Submit []]; Resume]; Submit []] with
+           Disc true false []; Disc false true []; Deliver ack; DeliverDisc; Submit [Submit [Submit []]; Resume]; Submit []] with
   | Some f => map (fun c => (c_id c, c_kind c,
                              match r_resp (c_reply c) with Some r => rs_data r | None => [] end))
                   (g_done f) =
               [(0, 0, [0; 7]); (1, 0, [1; 5; 1; 7]); (2, 0, [2; 7]); (5, 1, []); (3, 2, []); (4, 2, []);
                (6, 2, []); (7, 2, [])]
               /\ g_conc f = 1 /\ g_psends f = 0 /\ g_rj f = 0 /\ dv_of f = O /\
-              map (fun e => (fst (fst e), snd (fst e), map snd (snd e))) (g_runs f) = [(0, true, [0])] /\
-              g_ddone f = [(0, 0)]
+              map (fun e => (fst (fst e), snd (fst e), map snd (snd e))) (g_runs f) = [(0, true, [0; 1])] /\
+              g_ddone f = [(0, 0); (1, 0)] /\ s_nulls f = [1]
   | None => False
   end.
 Proof. vm_compute. repeat split. Qed.
